@@ -904,16 +904,19 @@ C1_DIMS = [("own", [0, 1]), ("ttl", [0, 1, 2]), ("rel", [0, 1]), ("mid", [0, 1])
            ("com", [0, 1]), ("gen", [0, 1])]
 
 
+C1_EXTRAS = ["par", "ws", "esc", "hdr", "noeol", "chunk", "crlf", "uq"]
+
+
 def work_c1(task, col):
     lo, step = task["slice"]
     points = []
     dims = [d for d in C1_DIMS if d[0] in task["dims"]]
     for vals in itertools.product(*[d[1] for d in dims]):
         core = {d[0]: v for d, v in zip(dims, vals) if v}
-        for ex in _deviations(SPELL_EXTRA, task["extra_k"]):
+        for ex in _deviations([d for d in SPELL_EXTRA if d[0] in C1_EXTRAS], task["extra_k"]):
             if "par" in ex and not core.get("par"):
                 continue
-            if ex.get("gr") == 2 or ex.get("rorder"):
+            if task.get("skip_plain") and not ex:
                 continue
             o = dict(core)
             o.update(ex)
@@ -1159,6 +1162,10 @@ def g_cause(case):
                     if w < 2 * len("%x" % (i + off)) - 1:
                         causes.append("nibble-width-below-natural-length")
                         break
+    inz = {zt.is_under(zt.parse_plain_name(zt.gen_subst(case["lhs"], i), O_T), O_T)
+           for i in zt.gen_range(*rng)}
+    if len(inz) > 1:
+        causes.append("owners-partly-out-of-zone")
     return "+".join(sorted(set(causes))) or "plain"
 
 
@@ -1264,6 +1271,8 @@ def recheck(case):
         return [("C09/%s/%s" % (k, descr_c2(case)), w) for k, w in eval_c2(case)[0]]
     if part == "g":
         return [("C09/%s/%s" % (k, descr_g(case)), w) for k, w in eval_g(case)]
+    if part == "r":
+        return [("C09/%s/%s" % (k, descr_r(case)), w) for k, w in eval_r(case)]
     raise AssertionError(part)
 
 
@@ -1298,7 +1307,8 @@ def chunks(lst, n):
 
 
 def run(ctx):
-    WORKERS.update({"a": work_a, "b": work_b, "c1": work_c1, "c2": work_c2, "g": work_g})
+    WORKERS.update({"a": work_a, "b": work_b, "c1": work_c1, "c2": work_c2, "g": work_g,
+                    "r": work_r})
     q = ctx.quick
     tasks = []
     cfg12 = [(i, r, b) for i in IMPLS for r in (True, False) for b in ("int", "ext")]
@@ -1327,7 +1337,7 @@ def run(ctx):
     for z in core:
         tasks.append({"w": "a", "zones": [z], "styles": ("kdev", 1), "vias": VIAS[1:]})
     if not q:
-        for z in core:
+        for z in core[:4]:
             for lo in range(16):
                 tasks.append({"w": "a", "zones": [z], "styles": ("kdev", 3), "slice": (lo, 16)})
                 tasks.append({"w": "a", "zones": [z], "styles": ("product", PRODUCT_DIMS),
@@ -1336,7 +1346,7 @@ def run(ctx):
     ctx.extra["a_zone_subset_size"] = {"single_option_deviations_all_12_configs": k1,
                                        "node_layout_options_plain": k2,
                                        "option_pairs": "4 thematic zones" + ("" if q else " + full pool, all 12 configs"),
-                                       "option_triples_and_product": None if q else "8 core zones"}
+                                       "option_triples_and_product": None if q else "4 core zones"}
     ctx.extra["a_style_domains"] = {k: len(v) for k, v in STYLE_DOMAINS}
     ctx.extra["a_vias"] = VIAS
 
@@ -1381,13 +1391,22 @@ def run(ctx):
 
     # ---- part c
     nc = ctx.pick(32, 96)
-    c1dims = ["own", "ttl", "rel", "mid", "par"] if q else [d[0] for d in C1_DIMS]
+    lc4 = [("plain", True), ("plain", False), ("btree", True), ("rrsets", False)]
+    c1dims = ("quick: own,ttl,rel,mid,par product, 4 loaders" if q else
+              "thorough: 7-toggle product x 8 loaders; 5-toggle product x <=1 of %s x 4 loaders" % C1_EXTRAS)
     lc = [("plain", True), ("plain", False), ("btree", True), ("rrsets", False)] if q else l_all
+    c1q = ["own", "ttl", "rel", "mid", "par"]
     for lo in range(nc):
-        tasks.append({"w": "c1", "slice": (lo, nc), "extra_k": ctx.pick(0, 1), "loaders": lc,
-                      "dims": c1dims})
+        if q:
+            tasks.append({"w": "c1", "slice": (lo, nc), "extra_k": 0, "loaders": lc, "dims": c1q})
+        else:
+            tasks.append({"w": "c1", "slice": (lo, nc), "extra_k": 0, "loaders": l_all,
+                          "dims": [d[0] for d in C1_DIMS]})
+            tasks.append({"w": "c1", "slice": (lo, nc), "extra_k": 1, "loaders": lc4, "dims": c1q,
+                          "skip_plain": True})
         tasks.append({"w": "c2", "slice": (lo, nc), "max_len": ctx.pick(3, 4),
-                      "owners": ["node", "apex"] if q else list(C2_OWNERS), "loaders": lc})
+                      "owners": ["node", "apex"] if q else ["node", "apex", "wild"], "loaders": lc})
+    tasks.append({"w": "r"})
     ctx.extra["c1_junk_kinds"] = JUNK_KINDS
     ctx.extra["c1_spelling_dims"] = c1dims
     ctx.extra["c2_types"] = C2_TYPES
@@ -1410,3 +1429,84 @@ def run(ctx):
         tasks = [t for t in tasks if t["w"] in only.split(",")]
         ctx.cap("VERIF_C09_PARTS=%s: only these parts were run" % only)
     ctx.pmap(work, tasks)
+
+
+# =========================================================================== part r: read_rrsets forced fields
+def eval_r(case):
+    """read_rrsets with any subset of owner/TTL/class/type forced through the API: the
+    input then omits exactly those fields; result must equal the fully spelled RRset."""
+    forced = set(case["forced"])
+    rel = case["rel"]
+    owner = n_("mail")
+    recs = [zt.A(owner, 300, "10.0.0.2"), zt.A(owner, 300, "10.0.0.3")]
+    if case.get("mx"):
+        recs = [zt.MX(owner, 300, 10, n_("mx1")), zt.MX(owner, 300, 20, n_("mx.example.net."))]
+    lines = []
+    for i, r in enumerate(recs):
+        toks = []
+        if "name" not in forced:
+            toks.append("    " if (case.get("own") and i) else zt.name_text(r["owner"], O_T, bool(case.get("relname"))))
+        if "ttl" not in forced and not (case.get("dttl")):
+            toks.append("300")
+        if "rdclass" not in forced and case.get("cls"):
+            toks.append("IN")
+        if "rdtype" not in forced:
+            toks.append(r["type"])
+        w = zt.Writer(O_T, {"rel": 1 if case.get("relname") else 0})
+        toks += w.fields(r)
+        lines.append(" ".join(toks))
+    text = "\n".join(lines) + "\n"
+    kw = {"origin": O, "relativize": rel}
+    kw["name"] = dns.name.Name(owner + (b"",)) if "name" in forced else None
+    if case.get("name_as_text") and "name" in forced:
+        kw["name"] = "mail"
+    kw["ttl"] = 300 if "ttl" in forced else None
+    kw["rdclass"] = "IN" if "rdclass" in forced else None
+    kw["rdtype"] = recs[0]["type"] if "rdtype" in forced else None
+    if case.get("dttl"):
+        kw["default_ttl"] = 300
+    exp = model_snapshot(recs, rel)
+    if "name" in forced and rel:
+        # a forced owner is used as handed over (absolute here); only names read from
+        # the text are relativized -- API semantics, not a zone-file spelling
+        exp = {(True, nk[1] + tuple(O_T) + (b"",)): v for nk, v in exp.items()}
+    try:
+        got = snap_rrsets(dns.zonefile.read_rrsets(text, **kw))[0]
+    except Exception as e:
+        return [("r/load-crash/" + crash_class(e), "%s: %s\ninput: %r kwargs %r" % (type(e).__name__, e, text, sorted(kw)))]
+    d = diff_snap(exp, got)
+    if d is not None:
+        return [("r/rrset-differs/" + d[0], "%s\ninput: %r forced %r" % (d[1], text, sorted(forced)))]
+    return []
+
+
+def descr_r(case):
+    return "forced=" + ("+".join(sorted(case["forced"])) or "none")
+
+
+def work_r(task, col):
+    fields = ["name", "ttl", "rdclass", "rdtype"]
+    for k in range(len(fields) + 1):
+        for forced in itertools.combinations(fields, k):
+            for rel, own, relname, cls, dttl, mx, nat in itertools.product((True, False), (0, 1), (0, 1),
+                                                                          (0, 1), (0, 1), (0, 1), (0, 1)):
+                if (own or relname or nat) and "name" in forced and not nat:
+                    if own or relname:
+                        continue
+                if nat and "name" not in forced:
+                    continue
+                if cls and "rdclass" in forced:
+                    continue
+                if dttl and "ttl" in forced:
+                    continue
+                if mx and dttl and "rdtype" in forced:
+                    continue    # '<owner> 10 mx1': TTL or preference?  inherently ambiguous
+                case = {"part": "r", "forced": list(forced), "rel": rel, "own": own, "relname": relname,
+                        "cls": cls, "dttl": dttl, "mx": mx, "name_as_text": nat}
+                probs = eval_r(case)
+                col.count("evaluations")
+                col.count("r_forced_field_reads")
+                col.nontrivial(("r", forced, rel, own, relname, cls, dttl, mx, nat))
+                col.outcome("r:" + (probs[0][0] if probs else "equal"))
+                for klass, what in probs:
+                    col.violation("C09/%s/%s" % (klass, descr_r(case)), what, case)
